@@ -214,7 +214,10 @@ def symbolic_rowlist(tbl, pred, base, order=None):
                     pats=lambda i: [rid[i]]))
     facts.append(FA([INT], lambda r: Implies(And(tbl.live[r], pred(r)),
                                              And(0 <= idx[r], idx[r] < n, rid[idx[r]] == r)),
-                    pats=lambda r: [idx[r]]))
+                    pats=lambda r: [idx[r], tbl.live[r]]))
+    # ground instances of the first axiom for the indices the code base tests (len > 0, 1, 2)
+    for k in range(3):
+        facts.append(Implies(n > k, And(tbl.live[rid[k]], pred(rid[k]), idx[rid[k]] == k)))
     if order:
         facts.append(FA([INT, INT], lambda i, j: Implies(And(0 <= i, i < j, j < n),
                                                          tbl.get(order, rid[i]) <= tbl.get(order, rid[j]))))
